@@ -416,7 +416,7 @@ def stmt_start(out):
 def rule_exc(tk, F, may_throw, exc_ret, ret_type='HandledEnum'):
     """EXC: after each statement that contains a call of a may-throw callee insert
        `if (g_exc) return <exc_ret>;` ; `if (C)` with a may-throw call in C is hoisted into a temp."""
-    out = []; i = 0; tmp = 0
+    out = []; i = 0; tmp = 0; pdepth = 0
     n = len(tk)
     def has_throw(seg):
         return any(seg[k] in may_throw and seg[k + 1:k + 2] == ['('] for k in range(len(seg)))
@@ -434,6 +434,10 @@ def rule_exc(tk, F, may_throw, exc_ret, ret_type='HandledEnum'):
                 out += [T('if', L), T('(', L), T(v, L), T(')', L)]
                 F.hit('EXC'); i = e + 1; continue
             out += tk[i:e + 1]; i = e + 1; continue
+        if t == '(': pdepth += 1
+        elif t == ')': pdepth -= 1
+        if t == ';' and pdepth > 0:      # inside a for(...;...;...) header: not a statement end
+            out.append(t); i += 1; continue
         if t == ';':
             s = stmt_start(out)
             seg = out[s:]
